@@ -1,6 +1,6 @@
-\* all histories over StorageBytes and StorageString with lengths 0, 1, 31, 32, 33, 70
+\* all histories over StorageBytes with lengths 0, 1, 31, 32, 33, 70 (stale slots beyond a shorter content included)
 CONSTANT UnitWord = 0
-CONSTANT Active = {"bytesA", "strA"}
+CONSTANT Active = {"bytesA"}
 CONSTANT Vals = {1, 2}
 CONSTANT Keys = {1, 2}
 CONSTANT MaxLen = 3
